@@ -65,7 +65,7 @@ TRIAGE = [
     (r"^vm::gc::Map::set$", r"panic", INV_PTR + " (the map has one 2-bit entry per heap cell)"),
     (r"^vm::heap::Heap::grow$", r".", "chunk_size is the non-zero constant HEAP_CHUNK_SIZE given to Heap::new; the ceiling of a finite positive value converts to usize; the product is the new heap length"),
     (r"^vm::heap::Heap::(free|put|maybe_put|get_at_index|get_at_index_mut)$", r"unwrap", INV_PTR),
-    (r"^vm::heap::Heap::maybe_put_cell$", r"panic", "INV-DATUM (checked by R06q): Cell::Procedure / Macro / Continuation are built only by Heap::get_as_cell, and the only way from there into the compiler is the eval builtin, which rejects a cell that is not a datum (Cell::is_datum) before compiling; put_cell of a datum component yields a Ptr"),
+    (r"^vm::heap::Heap::maybe_put_cell$", r"panic", "INV-DATUM (checked by R06q): both ways into the compiler for a Cell that did not come from the reader - the eval builtin (a run-time value converted by Heap::get_as_cell) and Vm::prepare_eval (a Cell of the host's making) - reject a cell that is not a datum (Cell::is_datum) before compiling; put_cell of a datum component yields a Ptr"),
     (r"^vm::heap::Heap::get_as_cell(_under)?$", r"unwrap", "`rest` is a Pair by the loop invariant (the matched Pair arm, then only cells tested is_pair()); as_cdr of a Pair is a Ptr"),
     (r"^vm::heap::Heap::get_as_cell(_under)?$", r"panic", "INV-USERVAL: register, frame-linkage and opcode cells are never the value of an expression or an element of user data"),
     (r"^vm::heap::Heap::sweep$", r"Overflow\(Sub\)", "free_list only grows during sweep"),
